@@ -1,4 +1,5 @@
 import Sgz.Proofs.Config
+import Sgz.Model.Geo
 /-!
 # C19 — configuration soundness
 
@@ -105,6 +106,25 @@ theorem valid_geo_2d (c : Cfg) (h : c.Valid true = true) :
     simp only [Nat.mul_comm, Nat.mul_left_comm, Nat.mul_assoc, Nat.one_mul]
   omega
 
+
+/-- the geometry a conversion with setting `c` writes for a cube of `n0 × n1 × n2` samples -/
+def geoOf (c : Cfg) (n0 n1 n2 : Nat) : Geo := { n0 := n0, n1 := n1, n2 := n2, b0 := c.b0, b1 := c.b1, b2 := c.b2, u := 2 * c.q }
+
+/-- **accepted ⇒ the placement theorems apply**: every setting the resolver accepts yields, for every non-empty cube, a
+geometry satisfying `Geo.Valid` — the hypothesis of C01 (write-then-read), C02 (access coherence), C03 (sizes), C07, C14 -/
+theorem accepted_setting_gives_valid_geometry (bpv : Q) (b0 b1 b2 : Int) (c : Cfg)
+    (h : resolve bpv b0 b1 b2 false = .ok c) (n0 n1 n2 : Nat) (h0 : 0 < n0) (h1 : 0 < n1) (h2 : 0 < n2) :
+    (geoOf c n0 n1 n2).Valid := by
+  have hv := resolve_sound bpv b0 b1 b2 false c h
+  obtain ⟨d0, d1, d2, hcpb⟩ := valid_geo_3d c hv
+  obtain ⟨hq, g1, g2, _, h3d, _⟩ := Config.valid_facts c false hv
+  have g0 : 4 ≤ c.b0 := h3d rfl
+  refine ⟨d0, d1, d2, ?_, ?_, ?_, ?_, ?_, h0, h1, h2⟩
+  · show 0 < c.b0; omega
+  · show 0 < c.b1; omega
+  · show 0 < c.b2; omega
+  · show 0 < 2 * c.q; omega
+  · exact hcpb
 
 /-- completeness: a valid setting whose rate is written as any rational `num/den = q/4` resolves to itself when all four
 parameters are given and when any one block dimension is left free (the first only in 3D); with the rate left free
